@@ -1648,7 +1648,12 @@ pub fn srv_conn(rec: &mut Rec, rng: &mut Rng, thorough: bool) {
         // exactly the later request is yielded, the dropped one never reappears
         let f = sim.connect(rec);
         sim.poll(rec);
-        let two = format!("GET /c{}/dropped HTTP/1.1\r\n\r\nBOGUS\r\n\r\n", f);
+        // one to three valid requests in front of the malformed one: ALL of them are dropped with the 400
+        let mut two = String::new();
+        for k in 0..rng.range(1, 3) {
+            two.push_str(&format!("GET /c{}/dropped{} HTTP/1.1\r\n\r\n", f, k));
+        }
+        two.push_str("BOGUS\r\n\r\n");
         sim.w.send(rec, f, two.as_bytes());
         sim.plans[f].sent_garbage = true;
         for _ in 0..3 {
